@@ -49,6 +49,23 @@ fn stdin_line(rng: &mut Rng) -> Vec<u8> {
     if rng.chance(1, 10) && !v.is_empty() {
         v[0] = b' ';
     }
+    // valid UTF-8 beyond ASCII (the services deal in bytes): at the front, in the middle, at the end
+    if rng.chance(1, 5) {
+        let ch = *rng.pick(&["\u{e9}", "\u{20ac}", "\u{c3}", "\u{1F600}", "\u{a0}"]);
+        let at = match rng.below(3) {
+            0 => 0,
+            1 => v.len() / 2,
+            _ => v.len(),
+        };
+        for (k, b) in ch.bytes().enumerate() {
+            v.insert(at + k, b);
+        }
+    }
+    // trailing blanks are part of the line
+    if rng.chance(1, 8) {
+        let blanks: [&str; 4] = [" ", "  ", "\t", " \t "];
+        v.extend_from_slice(blanks[rng.below(4)].as_bytes());
+    }
     v
 }
 
@@ -397,4 +414,4 @@ pub fn run(rep: &Report) {
     rep.floor("unsupported AH values observed", rep.counter("unsupported AH values observed"), 500);
 }
 
-pub const RULE: &str = "programs place text low, at a random segment and at the top of the 1 MiB space, set SS:SP/flags, then perform a history of 1-4 console service calls, each with DS/ES from {0xFFFF,0xFFF0,0,text segment,random}, buffer offsets {0,0xFFFF,0xFFFE,0xE,0xF,0xFF,random}, capacities {0,1,2,3,5,10,40,254,255}, CX {0,1,2,3,16,80,257,300}, characters incl. control and >=0x80, and a stdin script of lines of length {0,1,2,5,254..257,700,random}, missing lines (end of input) and a last line without newline; every AH value 0..255 is run once for both INT 21h and INT 10h. Oracle: a reference of the five services over (hook-recorded registers, dumped memory, remaining stdin) predicts the stdout bytes (bytes >= 0x80 accepted raw or as UTF-8), AL, and for AH=0Ah the count bounds min(len,cap-1) <= count <= min(len+1,cap), the stored prefix of the line and the window [DS:DX+1, DS:DX+1+cap] (addresses modulo 2^20) outside which no cell of the full 1 MiB may change; every other register, flag and memory cell must be identical in the records before and after; unsupported AH must be reported and stop the program. Distinct = (service, CX/output/capacity/line-length classes) and each unsupported (interrupt, AH).";
+pub const RULE: &str = "programs place text low, at a random segment and at the top of the 1 MiB space, set SS:SP/flags, then perform a history of 1-4 console service calls, each with DS/ES from {0xFFFF,0xFFF0,0,text segment,random}, buffer offsets {0,0xFFFF,0xFFFE,0xE,0xF,0xFF,random}, capacities {0,1,2,3,5,10,40,254,255}, CX {0,1,2,3,16,80,257,300}, characters incl. control and >=0x80, and a stdin script of lines of length {0,1,2,5,254..257,700,random} (ASCII, with multi-byte UTF-8 characters at the front/middle/end, with trailing blanks), missing lines (end of input) and a last line without newline; every AH value 0..255 is run once for both INT 21h and INT 10h. Oracle: a reference of the five services over (hook-recorded registers, dumped memory, remaining stdin) predicts the stdout bytes (bytes >= 0x80 accepted raw or as UTF-8), AL, and for AH=0Ah the count bounds min(len,cap-1) <= count <= min(len+1,cap), the stored prefix of the line and the window [DS:DX+1, DS:DX+1+cap] (addresses modulo 2^20) outside which no cell of the full 1 MiB may change; every other register, flag and memory cell must be identical in the records before and after; unsupported AH must be reported and stop the program. Distinct = (service, CX/output/capacity/line-length classes) and each unsupported (interrupt, AH).";
